@@ -9,6 +9,19 @@ import z3
 from .logic import Arr, SymL, sort_of, INF, _z
 
 
+def _has_quant(t):
+    seen, stack = set(), [t]
+    while stack:
+        x = stack.pop()
+        if x.get_id() in seen:
+            continue
+        seen.add(x.get_id())
+        if z3.is_quantifier(x):
+            return True
+        stack.extend(x.children())
+    return False
+
+
 class Unsupported(Exception):
     pass
 
@@ -70,11 +83,30 @@ class Slice:
     def __init__(self, lo, hi, step):
         self.lo, self.hi, self.step = lo, hi, step
 
+    start = property(lambda self: self.lo)      # same attribute names as Python's slice (contracts are dual-interpreted)
+    stop = property(lambda self: self.hi)
+
 
 class MaskedSel:
     """X[mask]: compressed selection kept lazily as (full-length array snapshot, mask snapshot)"""
     def __init__(self, arr, mask):
         self.arr, self.mask = arr, mask
+
+
+class RArr:
+    """list of arrays of varying length (ragged): row(c) is the template array with the comprehension variable replaced by c"""
+    def __init__(self, tmpl, cvar, n):
+        self.tmpl, self.cvar, self.n = tmpl, cvar, _z(n)
+        self.kind = tmpl.kind
+
+    def row(self, c):
+        c = _z(c)
+        sub = lambda t: z3.substitute(t, (self.cvar, c))
+        return Arr(sub(self.tmpl.term), tuple(sub(x) for x in self.tmpl.shape), self.tmpl.kind)
+
+    @property
+    def shape(self):
+        return (self.n,)
 
 
 class Metric:
@@ -216,11 +248,25 @@ class Engine:
         self.notes = []
         self.unsupported = []
         self.reached = set()
+        self.exits = []          # (function, kind, path condition, entry args, result / exception) of every exit path: conformance checks
 
     # ------------------------------------------------------------ helpers
     def fresh(self, base, kind_or_sort):
+        """a fresh unknown; inside a point-wise comprehension it is a skolem function of the comprehension index"""
         s = sort_of(kind_or_sort) if isinstance(kind_or_sort, str) else kind_or_sort
+        cv = getattr(self, 'comp_vars', [])
+        if cv:
+            f = z3.Function('%s!%d' % (base, next(self.fresh_n)), *[v.sort() for v in cv], s)
+            return f(*cv)
         return z3.Const('%s!%d' % (base, next(self.fresh_n)), s)
+
+    def fresh_fn(self, base, dom, rng):
+        """a fresh skolem function (witness function of a primitive contract); also lifted over comprehension indices"""
+        cv = getattr(self, 'comp_vars', [])
+        f = z3.Function('%s!%d' % (base, next(self.fresh_n)), *[v.sort() for v in cv], *dom, rng)
+        if cv:
+            return lambda *a: f(*cv, *a)
+        return f
 
     def new_obj(self, st, val):
         oid = next(self.oid_n)
@@ -340,6 +386,7 @@ class Engine:
         self.assigned = {m.id for m in ast.walk(fn) if isinstance(m, ast.Name) and isinstance(m.ctx, ast.Store)}
         self.param_names = [a.arg for a in fn.args.args] + [a.arg for a in fn.args.kwonlyargs]
         self.L.hints = []
+        self.L.abstract_mul = bool(getattr(c, 'abstract_nonlinear', True))
         st = State()
         params = c.params(self, st)
         defaults = self._defaults(fn)
@@ -386,6 +433,13 @@ class Engine:
         L = self.L
         out = []
         for lem in (c.lemmas(L, A, ghost) if hasattr(c, 'lemmas') else []):
+            out.append(self.lemma_term(lem))
+        return out
+
+    def lemma_term(self, lem):
+        L = self.L
+        out = []
+        if True:
             lo, hi, P = _z(lem['lo']), _z(lem['hi']), lem['P']
             t = L.var('t')
             if lem.get('down'):
@@ -395,8 +449,7 @@ class Engine:
                 base = z3.Implies(lo <= hi, _z(P(lo)))
                 step = z3.ForAll([t], z3.Implies(z3.And(lo <= t, t < hi, _z(P(t))), _z(P(t + 1))))
             concl = z3.ForAll([t], z3.Implies(z3.And(lo <= t, t <= hi), _z(P(t))))
-            out.append((lem['name'], base, step, concl))
-        return out
+            return (lem['name'], base, step, concl)
 
     def apply_cut(self, name, fn, st):
         """mid-function induction lemmas (contract `cuts`): proved here from the current path facts, then assumed"""
@@ -449,14 +502,29 @@ class Engine:
             self.reached.add((self.cur, 'return'))
             N = {n: self.wrap(self.entry_env[n], st) for n in self.entry_env}
             R = self.wrap(val, st)
+            self.exits.append((self.cur, 'return', list(st.pc), A, R, list(self.pre_pc)))
             V = View(self, st, old=A, ghost=self.ghost)
+            if hasattr(c, 'exit_lemmas'):
+                # induction lemmas about the exit state: base and step are obligations, the conclusion is then available to the postconditions
+                lems = [self.lemma_term(lem) for lem in c.exit_lemmas(L, A, R, self.ghost, V)]
+                for nm, base, step, concl in lems:
+                    self.emit('lemma', st, base, clause=nm + '.base')
+                    self.emit('lemma', st, step, clause=nm + '.step')
+                if lems:
+                    st = st.copy()
+                    st.pc = st.pc + [concl for _, _, _, concl in lems]
             for name, g in c.ensures(L, A, N, R, self.ghost, V):
                 self.emit('post', st, g, clause=name)
             for exc, cond in (c.raises(L, A, self.ghost) or {}).items():
                 self.emit('post', st, L.Not(cond), clause='must-raise-%s' % exc)
             mods = set(c.modifies)
+            frame_items = []
             for n, v in self.entry_env.items():
-                if isinstance(v, Ref) and n not in mods and isinstance(self.entry_st.heap[v.oid], Arr):
+                frame_items.append((n, v))
+                if isinstance(v, Tup):
+                    frame_items += [('%s[%d]' % (n, k), x) for k, x in enumerate(v.items)]
+            for n, v in frame_items:
+                if isinstance(v, Ref) and n.split('[')[0] not in mods and isinstance(self.entry_st.heap[v.oid], Arr):
                     a0, a1 = self.entry_st.heap[v.oid], st.heap[v.oid]
                     if a0 is a1 or (not isinstance(a0.term, tuple) and z3.eq(a0.term, a1.term) and all(z3.eq(x, y) for x, y in zip(a0.shape, a1.shape))):
                         continue       # syntactically untouched: no VC needed
@@ -464,9 +532,12 @@ class Engine:
         elif kind == 'raise':
             exc = val
             self.reached.add((self.cur, 'raise:' + str(exc)))
+            self.exits.append((self.cur, 'raise', list(st.pc), A, str(exc), list(self.pre_pc)))
             V = View(self, st, old=A, ghost=self.ghost)
             allowed = c.raises(L, A, self.ghost) if hasattr(c, 'raises') else {}
-            if exc in allowed:
+            if exc in getattr(c, 'may_raise', ()):
+                pass        # the contract leaves open when this exception occurs (reported as an unproved absence, never as proved)
+            elif exc in allowed:
                 self.emit('raises', st, allowed[exc], clause=str(exc), node=None)
             else:
                 self.emit('raises', st, z3.BoolVal(False), clause='unexpected-' + str(exc))
@@ -498,8 +569,22 @@ class Engine:
             yield st, False
             return
         tag = getattr(node, 'lineno', 0)
-        a = st.copy(); a.pc.append(c); a.path.append((tag, True)); yield a, True
-        b = st.copy(); b.pc.append(z3.Not(c)); b.path.append((tag, False)); yield b, False
+        prune = getattr(self.c, 'prune_paths', False)
+        if not (prune and self.infeasible(st, c)):
+            a = st.copy(); a.pc.append(c); a.path.append((tag, True)); yield a, True
+        if not (prune and self.infeasible(st, z3.Not(c))):
+            b = st.copy(); b.pc.append(z3.Not(c)); b.path.append((tag, False)); yield b, False
+
+    def infeasible(self, st, c):
+        """contracts with prune_paths: a branch whose condition contradicts the quantifier-free part of the path
+        condition is not executed (sound: only definitely unsatisfiable branches are dropped; `unknown` keeps the branch)"""
+        s = z3.Solver()
+        s.set('timeout', 400)
+        for p in st.pc:
+            if not _has_quant(p):
+                s.add(p)
+        s.add(c)
+        return s.check() == z3.unsat
 
     def exec_stmt(self, n, st):
         self.cur_line = getattr(n, 'lineno', 0)
@@ -655,11 +740,29 @@ class Engine:
                     if kind.startswith('tuple:'):
                         ks = kind[6:].split(',')
                         st.heap[v.oid] = Arr(tuple(z3.K(z3.IntSort(), self.fresh('dflt', k)) for k in ks), (0,), 'tuple', meta={'list': True})
+                    elif kind == 'count':
+                        # a list of objects the contract only counts (e.g. a list of per-path arrays)
+                        st.heap[v.oid] = Arr(z3.K(z3.IntSort(), z3.IntVal(0)), (0,), 'count', meta={'list': True})
+                    elif kind == 'aranges':
+                        zc = z3.K(z3.IntSort(), z3.IntVal(0))
+                        st.heap[v.oid] = Arr((zc, zc, z3.K(z3.IntSort(), z3.IntVal(1)), zc), (0,), 'aranges', meta={'list': True})
                     elif kind.startswith('slices:'):
                         base = self.deref(st, st.env[kind[7:]])
                         st.heap[v.oid] = Arr((z3.K(z3.IntSort(), z3.IntVal(0)), z3.K(z3.IntSort(), z3.IntVal(0))), (0,), 'slices', meta={'list': True, 'base': base})
                     else:
                         st.heap[v.oid] = Arr(z3.K(z3.IntSort(), self.fresh('dflt', kind)), (0,), kind, meta={'list': True})
+            if tgt.id in getattr(self.c, 'opaque_locals', ()) and is_sym(v) and not isinstance(v, Arr) and (z3.is_real(v) or z3.is_int(v)) \
+                    and not z3.is_const(v):
+                # the contract asks to name this intermediate value: a fresh constant with a defining fact (keeps later terms small,
+                # and the definition is available to local proofs as 'def:<name>')
+                k_ = self.fresh(tgt.id, 'real' if z3.is_real(v) else 'int')
+                eq_ = (k_ == v)
+                st.pc.append(eq_)
+                key_, n_ = 'def:' + tgt.id, 1
+                while (key_ if n_ == 1 else '%s#%d' % (key_, n_)) in st.facts:
+                    n_ += 1
+                st.facts[key_ if n_ == 1 else '%s#%d' % (key_, n_)] = eq_
+                v = k_
             st.env[tgt.id] = v
             return st
         if isinstance(tgt, (ast.Tuple, ast.List)):
@@ -901,6 +1004,8 @@ class Engine:
                         for name, gg in all_inv(h3):
                             self.emit('loop%d.preserve' % k, h3, gg, clause=name)
                     elif kind == 'break':
+                        h3 = h3.copy()
+                        h3.env['__broke'] = k         # left by `break`: the loop variable keeps the value of the interrupted iteration
                         yield ('fall', h3, None)
                     else:
                         yield (kind, h3, v)
@@ -948,7 +1053,10 @@ class Engine:
                     yield kind, h2, val
             # after the loop `var` is maybe-defined (defined iff at least one iteration ran)
             for kind, h, v in self.loop_common(st1, n, guard, body, rb + [var], mutated, auto, alias={var: cnt}):
-                if kind == 'fall':
+                if kind == 'fall' and h.env.get('__broke') == self.loop_ids[id(n)]:
+                    h = h.copy()
+                    del h.env['__broke']
+                elif kind == 'fall':
                     h = h.copy()
                     c_ = to_z3(h.env[cnt])
                     old = st1.env.get(var, UNDEF)
@@ -998,7 +1106,10 @@ class Engine:
                     h2.env[cnt] = to_z3(h2.env[cnt]) + 1
                 yield kind, h2, val
         for kind, h, v in self.loop_common(st1, n, guard, body, rb, mutated, auto, alias=({iv: cnt} if iv else None)):
-            if kind == 'fall':
+            if kind == 'fall' and h.env.get('__broke') == self.loop_ids[id(n)]:
+                h = h.copy()
+                del h.env['__broke']
+            elif kind == 'fall':
                 h = h.copy()
                 for nm in names:
                     if st1.env.get(nm, UNDEF) is UNDEF:
@@ -1040,7 +1151,11 @@ class Engine:
             yield from self.eval(n.test, h)
         def body(h):
             yield from self.exec_block(n.body, h)
-        yield from self.loop_common(st, n, guard, body, rebound, mutated)
+        for kind, h, v in self.loop_common(st, n, guard, body, rebound, mutated):
+            if kind == 'fall' and '__broke' in h.env:
+                h = h.copy()
+                del h.env['__broke']
+            yield kind, h, v
 
     # ------------------------------------------------------------ expressions
     def eval_index(self, n, st):
